@@ -150,6 +150,18 @@ class Gen:
                 else:
                     out[p] = self.r.choice([(1 << (w - 1)) - 1, 1 << (w - 1), (1 << w) - 1, (1 << (w - 1)) + 1, (1 << w) - 2])
             return out
+        if cls == "onesign":
+            # every element on the SAME side of the sign bit (all negative / all non-negative; unsigned: all >= or all < 2^(w-1)),
+            # the side drawn per vector: an order reversed for one sign only is invisible on mixed-sign data
+            side = self.r.below(3) != 0        # two in three: the top bit set (negative values)
+            out = []
+            for _ in range(n):
+                if ty[0] == "f":
+                    v = self.float_val(ty, "random") & ((1 << (w - 1)) - 1)
+                else:
+                    v = self.r.next() % (1 << (w - 1))
+                out.append(v | ((1 << (w - 1)) if side else 0))
+            return out
         out = []
         for _ in range(n):
             if ty[0] == "f":
